@@ -209,7 +209,44 @@ def children_first(ordered):
     return True
 
 
+def check_iter_subtrees(ctx, res):
+    """Tree.iter_subtrees on random proper trees (Tree nodes with unique ids, tokens mixed in) vs IterProto.iterSubtrees, the function
+    Props.C16.iter_subtrees_children_first is about; the theorem's conclusion (children before parents, every subtree once) is also checked on the real order"""
+    from lark import Tree, Token
+    rng = random.Random(ctx['seed'] * 1000003 + 1616)
+    def gen(depth, counter):
+        i = counter[0]; counter[0] += 1
+        kids, spec = [], []
+        for _ in range(rng.choice([0, 1, 2, 3]) if depth < 5 else 0):
+            if rng.random() < 0.3:
+                kids.append(Token('A', 'a'))
+            else:
+                t, sp = gen(depth + 1, counter); kids.append(t); spec.append(sp)
+        return Tree(str(i), kids), {'id': i, 'kids': spec}
+    trees, cases = [], []
+    for _ in range(tier_scale(ctx['tier'], 400, 4000)):
+        t, sp = gen(0, [0]); trees.append(t); cases.append({'op': 'iter_subtrees', 'tree': sp})
+    model = run_driver_parallel(cases)
+    for t, c, m in zip(trees, cases, model):
+        if isinstance(m, dict) and 'error' in m:
+            raise InfraError('driver: %s' % m['error'])
+        real = [int(x.data) for x in t.iter_subtrees()]
+        res.case(['iter_subtrees', real], nontrivial=len(real) > 2)
+        res.count('iter_subtrees_orders_compared')
+        seen = set(); ok = True
+        for x in t.iter_subtrees():
+            if any(isinstance(c_, Tree) and int(c_.data) not in seen for c_ in x.children): ok = False
+            seen.add(int(x.data))
+        n_nodes = json.dumps(c['tree']).count('"id"')
+        if not ok or len(real) != n_nodes or len(set(real)) != n_nodes:
+            res.violation('Tree.iter_subtrees yields a node before one of its children, or not every subtree exactly once (the order the in-place transformer and the visitors rely on)',
+                          {'tree': c['tree'], 'yielded_ids': real})
+        elif real != m['order']:
+            res.corr_break('Tree.iter_subtrees order differs from the Lean mirror IterProto.iterSubtrees (theorem iter_subtrees_children_first no longer speaks about the code)', {'tree': c['tree'], 'code': real, 'model': m['order']})
+
+
 def run(ctx, res):
+    check_iter_subtrees(ctx, res)
     rng = random.Random(ctx['seed'] * 1000003 + 16)
     N = tier_scale(ctx['tier'], 2500, 30000) * (3 if ctx['deepen'] else 1)
     jobs = [(shapelib.gen_grammar(rng, imports=True), rng.randrange(1 << 30)) for _ in range(N)]
